@@ -712,6 +712,72 @@ func recordConc(rec *recorder, rng *rand.Rand, trials int, repo string) int {
 		}
 		rw.Wait()
 	}
+	// rank-0 graphs: every tensor is a scalar, every Run is a few hundred nanoseconds of allocation-heavy work, so that very many
+	// Runs overlap with each other and with the garbage collector (a temporary tensor that is reclaimed while its memory is
+	// still being read shows up here, about once in 10^5 Runs)
+	for _, sc := range []struct {
+		name string
+		op   string
+	}{{"scalar_prelu", "PRelu"}, {"scalar_mul", "Mul"}, {"scalar_sub", "Sub"}} {
+		sm := mModel{
+			Nodes:  []mNode{{Op: sc.op, Attrs: []Attr{}, Ins: []string{"x", "w"}, Outs: []string{"y"}}, {Op: "Abs", Attrs: []Attr{}, Ins: []string{"y"}, Outs: []string{"z"}}},
+			Inputs: []mInput{{Name: "x", Dt: "f32", Dims: []mDim{}}}, Outputs: []string{"y", "z"},
+			Inits: []mInit{{"w", AbsTensor{Dt: "f32", Shape: []int{}, Data: []Elem{{Kind: "rec", C: "fin", N: 1, D: 2}}}}}}
+		b, err := buildModel(sm)
+		if err != nil {
+			fmt.Fprintln(os.Stderr, "record conc:", sc.name, err)
+			return 2
+		}
+		model, err := gonnx.NewModelFromBytes(b)
+		if err != nil {
+			fmt.Fprintln(os.Stderr, "record conc:", sc.name, err)
+			return 2
+		}
+		vals := []float32{-3, 2.5, -0.75, 8}
+		outcome := func(k int) string {
+			var dg string
+			o := guard(func() Observation {
+				out, err := model.Run(gonnx.Tensors{"x": tensor.New(tensor.FromScalar(vals[k]))})
+				if err != nil {
+					dg = "error: " + err.Error()
+				} else {
+					dg = digestOf(out, sm.Outputs)
+				}
+				return Observation{Kind: "value"}
+			})
+			if o.Kind != "value" {
+				return "panic: " + o.Short()
+			}
+			return dg
+		}
+		base := make([]string, len(vals))
+		for k := range vals {
+			base[k] = outcome(k)
+			emit(map[string]interface{}{"ev": "Baseline", "model": sc.name, "g": 0, "seq": 0, "key": k + 1, "digest": base[k]})
+		}
+		runs := 400 * trials
+		if concMode == "hot" {
+			runs = 2500 * trials
+		}
+		var rw sync.WaitGroup
+		for gi := 1; gi <= 16; gi++ {
+			rw.Add(1)
+			go func(gi int) {
+				defer rw.Done()
+				logged := 0
+				for seq := 1; seq <= runs; seq++ {
+					k := (seq + gi) % len(vals)
+					dg := outcome(k)
+					// (only deviating Runs and a sample of the others are logged: the trace would otherwise hold millions of events)
+					if dg != base[k] || seq%(runs/20+1) == 0 {
+						logged++
+						emit(map[string]interface{}{"ev": "RunEnd", "model": sc.name, "g": gi + 600, "seq": logged, "key": k + 1, "digest": dg})
+					}
+				}
+			}(gi)
+		}
+		rw.Wait()
+	}
 	// random DAG programs over the operator catalogue (the same generator as the node-level trace recorder): every operator
 	// family is run from 8 goroutines at once, each Run with its own tensors, against the sequential result of the same input
 	nProg := 3
